@@ -429,3 +429,8 @@ def run_arith(repo, rep, prop):
     # L.m: the engine interpreted on small concrete documents (both strategies, small widths, ribbon fractions 1 and 0.5)
     from . import layoutmodel
     rep.floor(prop + '.L.m', layoutmodel.run(repo, rep, {'C04': prop + '.L.m', prop: prop + '.L.m'}), 2)
+    if prop == 'C06':
+        # the corollary for strings: a str / bytes value whose one-line literal fits is printed as that literal (string printer's
+        # layout-time evaluator interpreted on the string corpus)
+        from . import strmodel
+        rep.floor('C06.L.s', strmodel.one_line_when_it_fits(repo, rep, 'C06.L.s'), 1)
